@@ -286,10 +286,16 @@ def aggregate(mod, cid, tier, seed, n, nshards, recs, counters, cut, ended, dead
             if len(samples) < 4 and (r.get("sample") is not None or r.get("case") is not None) and r.get("nontrivial"):
                 samples.append(r.get("sample") if r.get("sample") is not None else r.get("case"))
         if s == "viol":
-            if match_known(known, r["sig"]) is not None:
-                known_hits[r["sig"]] += 1
-            else:
-                viols.append(r)
+            # a case may carry several violations (batches): every one is classified on its own, so that a known
+            # finding inside a batch cannot hide an unknown violation of the same batch
+            allv = [(r["sig"], r.get("detail"))] + [tuple(x) for x in r.get("extra_viols", [])]
+            for vsig, vdetail in allv:
+                if match_known(known, vsig) is not None:
+                    known_hits[vsig] += 1
+                else:
+                    r2 = dict(r)
+                    r2["sig"], r2["detail"] = vsig, vdetail
+                    viols.append(r2)
         if s in ("skip", "inc"):
             reasons["%s:%s" % (s, r.get("reason"))] += 1
     done = len(recs)
